@@ -34,6 +34,10 @@ CHECKS = {
    text="Generated typed expression ASTs (all operators the datamodel evaluates, unary minus, array/field access) printed with minimal and with full parentheses, evaluated by the Promela datamodel in a sanitizer build and in a plain g++ build, compared with a reference evaluator with C int semantics that tracks undefined behaviour; assignment sequences with read-back; an ill-formed class that must yield error.execution and never a crash or hang.",
    note="Trusted: the reference evaluator and the two printers (cross-checked against each other by the metamorphic relation). C-undefined cases (overflow) only demand 'no crash'. ++/-- not reachable through the API.",
    technique="property-based testing against a reference evaluator + metamorphic parenthesisation (Hypothesis), two builds"),
+ 'C16': dict(category='exploration', design_ref='DESIGN.md §4 C16',
+   text="Round trip of generated values (strings incl. empty/number-like/code-like, integers and reals with many digits, booleans, arrays, maps, nested) through five entry paths (API assign, event payload, <param>, namelist, <donedata>) of a real Lua-datamodel session and back via evalAsData, compared modulo Lua value semantics; plus the protected system variables (assignment must raise error.execution and leave the value unchanged) via API and via <assign>.",
+   note="Trusted: the equivalence predicate (numbers numerically, strings bytewise). Shapes the statement excludes (numeric keys, nil holes, empty containers) are not generated. Inline <data> content and <log> as exit path are not covered.",
+   technique="round-trip property-based testing (Hypothesis) through a live interpreter session"),
 }
 NOT_YET = "check not implemented yet in this session (see DESIGN.md §11 for the plan)"
 
